@@ -59,7 +59,7 @@ META = {
             'and a 1-chunk message pushed while 250 chunks of an EARLIER push are still in the write path (peer took nothing until '
             'the explored phase starts, then slow), (e) two 1-chunk messages of one thread behind 300 earlier chunks, (f) the small '
             'message pushed by the loop thread (create_task branch) while a pusher\'s 301-chunk message drains slowly; twisted: 1.2 MB '
-            'against 100 bytes, socket takes <=64 KiB per doWrite, <=1 preemption, line-granular as everywhere.  Thorough adds: (a) at '
+            'against 100 bytes, socket takes <=64 KiB per doWrite, <=1 preemption, every callFromThread / reactor call / doWrite and the first 2 executions of every reactor-module line per thread.  Thorough adds: (a) at '
             'bound 2 without line points, (a) against a 2-chunk message, slow peer with 2 turns per chunk, (b) with capped line points, '
             '301 chunks of out_buffer_size 8, (d) with a 2-chunk message / with two earlier messages, the large message pushed by the '
             'loop thread; twisted with a short write and with a reactor-thread push.  Scheduling points (all other configurations): every source line of every function defined in cassandra/io/asyncioreactor.py / '
@@ -135,12 +135,12 @@ def large_plan(ctx):
         # bound 1 in every large twisted world: a reactor that hands a message over in pieces has hundreds of hand-over
         # points per push here, and the number of schedules with 2 preemptions grows with the square of that
         out.append(('twisted LARGE 1.2 MB message vs 100-byte message, slow peer (<=64 KiB per doWrite), bound 1',
-                    {'reactor': 'twisted', 'msgs': [[BIG], [SMALL]], 'partial': 0, 'slow_bytes': TW_SLOW, 'horizon': 200000}, 1))
+                    {'reactor': 'twisted', 'msgs': [[BIG], [SMALL]], 'partial': 0, 'chunk': R, 'line_cap': 2, 'slow_bytes': TW_SLOW, 'horizon': 200000}, 1))
         if not ctx.quick:
             out.append(('twisted LARGE 1.2 MB message vs 100-byte message, slow peer, <=1 short write, bound 1',
-                        {'reactor': 'twisted', 'msgs': [[BIG], [SMALL]], 'partial': 1, 'slow_bytes': TW_SLOW, 'horizon': 200000}, 1))
+                        {'reactor': 'twisted', 'msgs': [[BIG], [SMALL]], 'partial': 1, 'chunk': R, 'line_cap': 2, 'slow_bytes': TW_SLOW, 'horizon': 200000}, 1))
             out.append(('twisted LARGE 1.2 MB message of a pusher vs 100-byte push from the reactor thread, slow peer, bound 1',
-                        {'reactor': 'twisted', 'msgs': [[BIG]], 'loop': [SMALL], 'partial': 0, 'slow_bytes': TW_SLOW,
+                        {'reactor': 'twisted', 'msgs': [[BIG]], 'loop': [SMALL], 'partial': 0, 'chunk': R, 'line_cap': 2, 'slow_bytes': TW_SLOW,
                          'horizon': 200000}, 1))
     return out
 
